@@ -174,7 +174,8 @@ def I6 (s : Core) : Option String :=
   | some root =>
     let nodeSum := sumRes (s.nodes.map (·.allocated))
     -- allocations of applications that are no longer live are reported by I7; do not report them twice
-    let orphan := sumRes ((s.nodes.map (fun n => (n.allocs.filter (fun na => !na.foreign && (s.findApp na.app).isNone)).map (·.res))).flatten)
+    let orphan := sumRes ((s.nodes.map (fun n => (n.allocs.filter (fun na => !na.foreign &&
+        (match s.findApp na.app with | none => true | some a => !(a.items.any (·.key == na.key))))).map (·.res))).flatten)
     let infl := addX (sumRes (inflightCross s)) orphan
     if sparseEq (addX root.allocated infl) nodeSum then none else some "I6 root.allocated≠Σnode.allocated−inflight"
 
@@ -283,7 +284,7 @@ def gangOK (s : Core) : Option String :=
         match i.release with
         | none => none
         | some rk => match a.items.find? (·.key == rk) with
-          | none => some s!"ph-link-unknown {i.key}"
+          | none => none   -- the replacement's ask was removed meanwhile (placeholder timeout): nothing to compare
           | some r =>
             if r.ph then some s!"ph-replaced-by-ph {i.key}"
             else if r.tg != i.tg then some s!"replacement-other-taskgroup {i.key}"
@@ -299,6 +300,28 @@ def lifecycleOK (s : Core) : Option String :=
             s.queues.any (fun q => q.apps.contains a.id) then
       some s!"terminated-still-in-queue {a.id}"
     else none)
+
+/-- C10: an application with neither asks nor allocations does not stay Accepted / Running: it becomes Completing -/
+def idleOK (s : Core) : Option String :=
+  s.liveApps.findSome? (fun a =>
+    -- (a Soft gang application that timed out goes Resuming → Accepted with all its asks dropped and waits there for
+    --  new asks: that documented edge is not an idle application that failed to complete)
+    if (a.state == "Accepted" || a.state == "Running") && !a.log.isEmpty && !a.log.contains "Resuming" &&
+       isZero (some a.pending) && isZero (some a.allocated) && isZero (some a.allocatedPh) &&
+       !(a.items.any (fun i => i.bound || (i.inReq && !i.allocated))) then
+      some s!"idle-not-completing {a.id} {a.state}"
+    else none)
+
+/-- C02: at the root the maximum is the sum of the registered node capacities -/
+def rootMaxOK (s : Core) : Option String :=
+  let sum := sumRes (s.nodes.map (·.total))
+  if !sparseEq s.total sum then some s!"root-max partition-total≠Σnode-capacity"
+  else match s.queues.find? (·.parent.isNone) with
+    | none => none
+    | some root =>
+      match root.max with
+      | none => if strictlyGreaterThanZero (some s.total) then some "root-max unset-with-nodes" else none
+      | some m => if sparseEq m s.total && m.all (fun p => s.total.has p.1) then none else some "root-max root.max≠Σnode-capacity"
 
 def countersOK (s : Core) : Option String :=
   s.queues.findSome? (fun q =>
